@@ -206,4 +206,14 @@ CLAIMED = {
             "wrong marker/version/encoding/length are rejected, trailing bytes ignored, 65 536-byte bodies fail to pack.",
             "Placeholder-mentioning documents excluded (as in the property); JSON encoding only (the only one defined).",
             "DESIGN.md §3 C14"),
+    "C16": ("TLA+ spec SdJwtValidation (credential table + key-binding table) evaluated by TLC; every row issued as a real "
+            "SD-JWT / KB-JWT and validated",
+            "model_checking",
+            "TLC enumerates 17 641 rows and computes the verdict (accept / reject / either for a duplicated disclosure); the "
+            "harness issues each row with SdObjectEncoder and real Ed25519 signatures (issuer, two holder keys, a foreign key), "
+            "runs validate_credential and validate_key_binding_jwt and requires accept <=> fully bound, the reconstructed "
+            "credential to show exactly the disclosed claims, returned KB claims to be the signed ones, and every failure to be "
+            "an error value (a panic is a violation).",
+            "sd-jwt-payload trusted for hashing; Ed25519 trusted.",
+            "DESIGN.md §3 C16"),
 }
